@@ -834,6 +834,8 @@ class Effects:
         for r in kws.values():
             allr |= r
         f = e.func
+        if isinstance(f, ast.Call) and src_of(f.func).split(".")[-1] == "vectorize":
+            return set()          # np.vectorize(kernel)(a, b, ...): the kernel is applied element by element and the results collected in a new array
         # out= keyword writes into its target
         if "out" in kws and kws["out"]:
             self._record_mut(s, kws["out"], e)
